@@ -506,6 +506,20 @@ theorem dispatch_inv {env : DEnv} {s : DState} (h : DealerInv s) {v : Invk} (hv 
   · exact syncError_inv h _ _ _ _ _ _
   · exact h.armTimer hv env timeout hc
 
+theorem DealerInv.preCancel {s : DState} (h : DealerInv s) (v : Invk) (t : Nat) : DealerInv (preCancel s v t) := by
+  unfold Nexus.L2.preCancel
+  split
+  · exact h.cancelTimer _
+  · exact h
+
+theorem dispatchL_inv {env : DEnv} {s : DState} (h : DealerInv s) {v : Invk} (hv : v ∈ s.d.invs)
+    {caller : SessKey} {req : Nat} (hc : v.callId = ⟨caller, req⟩) (callee : SessKey) (invReq timeout : Nat) (m : Msg) :
+    DealerInv (dispatchL env s caller req callee invReq v timeout m).st := by
+  unfold dispatchL
+  split
+  · exact syncError_inv h _ _ _ _ _ _
+  · exact (h.preCancel v timeout).armTimer (by rw [preCancel_d]; exact hv) env timeout hc
+
 theorem firstChunk_inv {env : DEnv} {s : DState} (h : DealerInv s) {reg : Reg} (hm : reg ∈ s.d.regs)
     {caller : SessKey} {req : Nat} (opts : Dict) (proc : String) (args : List WVal) (kw : Dict) {callee : SessKey}
     {reg' : Reg} (hs : reg'.shape = reg.shape) (hb : s.d.byCall? ⟨caller, req⟩ = none) :
@@ -534,7 +548,7 @@ theorem laterChunk_inv {env : DEnv} {s : DState} (h : DealerInv s)
   have h1 : DealerInv { s with d := s.d.setInv { v0 with inProgress := opts.optFlag OptProgress } } :=
     h.setInv (v' := { v0 with inProgress := opts.optFlag OptProgress }) hv rfl rfl
   simp only
-  refine dispatch_inv (v := { v0 with inProgress := opts.optFlag OptProgress }) h1 ?_ hvc _ _ _ _
+  refine dispatchL_inv (v := { v0 with inProgress := opts.optFlag OptProgress }) h1 ?_ hvc _ _ _ _
   unfold Dealer.setInv
   simp only
   exact (mem_map_update (f := fun x : Invk => x.id) (u := fun _ => { v0 with inProgress := opts.optFlag OptProgress })).2
